@@ -168,3 +168,44 @@ class SublayoutInspection(Inspections):
             r,m=run.check_sat(small)
             if r==z3.sat: rec['sample']={'scenario':mk(m),'expect':'ok' if oc=='ok' else 'err'}
         return rec
+
+class InspectionsSharingAName(Inspections):
+    """two inspections with ONE name: whatever the implementation does with their link files (the later one replaces the earlier
+    one in a table keyed by name), the first one's failing rules must not be lost: the layout is never accepted"""
+    def __init__(self,**kw):
+        Inspections.__init__(self,ninsp=2,**kw); self.name='C08.inspections_sharing_a_name'
+        self.bounds={'layout':'validly signed, unexpired, one step with a valid link','inspections':'two, both named q, both with DISALLOW * on products: the first creates a product (its rules fail), the second removes everything the first left (its rules pass); free exit status 0',
+                     'hash_map_iteration':'every permutation'}
+        self.witnesses=['rejected']
+    def inspection_result(self,run,name,a):
+        k=run.ghost['insp_calls']; run.ghost['insp_calls']+=1
+        g=run.ghost['insp_seq'][min(k,1)]
+        ld=LinkD(name,dict(g['materials']),dict(g['products']),Int(32,True,0))
+        return ok(self.b.metablock(self.b.wrap_link(self.mk_link(run,ld)),[]))
+    def mk_args(self,run):
+        b=self.b; F0,OWN=0,1
+        step=StepD('s0',1,[F0])
+        dirs={():[FileD('s0',F0,BlockD('link',LinkD('s0',{'a':[1]},{'b':[2]}),[SigD(F0,F0)]))]}
+        x=[z3.BitVec('ix',8)]; lf=[z3.BitVec('linkfile',8)]
+        seq=[{'materials':{},'products':{'x':x}},{'materials':{'x':x,'q.link':lf},'products':{}}]
+        insps=[]
+        for k in range(2):
+            d=InspD('q'); d.exp_prod=[b.rule('Disallow','*')]; d.exp_prod_json=[['DISALLOW','*']]
+            d.dyn_run=(lambda k: (lambda m: ['sh','-c','touch x'] if k==0 else ['sh','-c','rm -f x q.link']))(k)
+            insps.append(d)
+        run.ghost['insp_seq']=seq; run.ghost['insp_calls']=0; run.ghost['insp']={}
+        lay=LayoutD([F0],[step],insps)
+        lb=BlockD('layout',lay,[SigD(OWN,OWN)]); caller=[(OWN,OWN)]
+        args=self.install(run,lb,caller,dirs)
+        return args,{'lb':lb,'caller':caller,'dirs':dirs}
+    def check(self,run,out,g):
+        oc=outcome_of(out); rec=self.new_rec(oc); rec['obl']=1
+        mk=lambda m: conc_scenario(m,g['lb'],g['caller'],g['dirs'],1700000000,repeat=2)
+        r,m=run.check_sat(z3.BoolVal(True))
+        if oc=='panic':
+            rec['viol']={'kind':'panic','known_key':None,'scenario':mk(m),'predicted':'panic','what':'in_toto_verify panics: '+str(out[1])}; return rec
+        if oc=='ok':
+            rec['viol']={'kind':'failing_inspection_lost_behind_its_namesake','known_key':None,'scenario':mk(m),'predicted':'ok','what':'a layout with two inspections of one name is accepted although the first one\'s product rules fail on what it recorded'}; return rec
+        self.wit(run,rec,'rejected')
+        rec['sample']={'scenario':mk(m),'expect':'err'}
+        return rec
